@@ -63,8 +63,8 @@ func (q *ConcurrentQueue[T]) Put(val T) error {
 
 // Take Take the T val(probably blocking)
 func (q *ConcurrentQueue[T]) Take() (T, error) {
-	q.lock.RLock()
-	defer q.lock.RUnlock()
+	q.lock.Lock()
+	defer q.lock.Unlock()
 
 	return q.queue.Take()
 }
@@ -79,8 +79,8 @@ func (q *ConcurrentQueue[T]) Offer(val T) error {
 
 // Poll Poll the T val(non-blocking)
 func (q *ConcurrentQueue[T]) Poll() (T, error) {
-	q.lock.RLock()
-	defer q.lock.RUnlock()
+	q.lock.Lock()
+	defer q.lock.Unlock()
 
 	return q.queue.Poll()
 }
@@ -110,8 +110,8 @@ func (q *ConcurrentStack[T]) Push(val T) error {
 
 // Take Take the T val(probably blocking)
 func (q *ConcurrentStack[T]) Pop() (T, error) {
-	q.lock.RLock()
-	defer q.lock.RUnlock()
+	q.lock.Lock()
+	defer q.lock.Unlock()
 
 	return q.stack.Pop()
 }
